@@ -29,7 +29,20 @@ def gen1(n):
     for i in range(n):
         v = g(i + 10)
         w = yield v
+
+def gen2(n):
+    for i in range(n):
+        v = g(i + 20)
+        u = w = yield v
+
+def gen3(n):
+    for i in range(n):
+        v = g(i + 30)
+        w: int = yield v
+        if (t := (yield g(i + 31))) is not None:
+            pass
 '''
+NKINDS = 4
 
 
 def run_history(chk, mod, drv, rng, stats):
@@ -37,11 +50,13 @@ def run_history(chk, mod, drv, rng, stats):
     from ptera.selector import select
     from ptera.overlay import HandlerCollection, autotool
     env = mod.__dict__
-    sels = {"plain": select("g > a", env=env), 0: select("gen0 > g > a", env=env), 1: select("gen1 > g > a", env=env)}
+    sels = {"plain": select("g > a", env=env)}
+    for k in range(NKINDS):
+        sels[k] = select("gen%d > g > a" % k, env=env)
     fired = []      # (overlay, which)
     ngens = rng.randrange(1, 4)
     lens = [rng.randrange(0, 4) for _ in range(ngens)]
-    kinds = [rng.randrange(2) for _ in range(ngens)]
+    kinds = [rng.randrange(NKINDS) for _ in range(ngens)]
     gens = [None] * ngens
     started = [False] * ngens
     overlays = {}
@@ -70,7 +85,7 @@ def run_history(chk, mod, drv, rng, stats):
     ended = set()
     try:
         for gi in range(ngens):
-            gens[gi] = (mod.gen0 if kinds[gi] == 0 else mod.gen1)(lens[gi])
+            gens[gi] = getattr(mod, "gen%d" % kinds[gi])(lens[gi])
         n = rng.randrange(5, 16)
         for _ in range(n):
             r = rng.random()
@@ -146,7 +161,8 @@ def run_history(chk, mod, drv, rng, stats):
             autotool(s, undo=True)
         HandlerCollection.current.set(None)
     # ---- model: generator kinds map gen-kind ids; `inside` holds generator *function* ids in the observation
-    req = {"op": "ctx", "gens": lens, "ops": hist}
+    # (a generator of kind 3 yields twice per iteration, with one call of g before each yield)
+    req = {"op": "ctx", "gens": [l * 2 if k == 3 else l for l, k in zip(lens, kinds)], "ops": hist}
     trace = drv.ask(req)
     stats["histories"] += 1
     chk.count(json.dumps([lens, kinds, hist]), nontrivial=any(h["op"] == "next" for h in hist) and any(
